@@ -219,6 +219,10 @@ def tasks_for(tier):
     for fa in (FLUENTS[:1], []):
         for rev in (False, True):
             tasks.append({"atoms": M_ATOMS, "fluents_a": list(fa), "fluents_b": list(fa), "reverse_b": rev, "empty_keys": not rev})
+    # round 23: one object in THREE argument places (a repetition count clamped at two)
+    for fa in (["(w3 o1 o1 o1)", "(g)"], ["(w3 o2 o2 o2)", "(h o2 o2)"]):
+        for rev in (False, True):
+            tasks.append({"atoms": ATOMS[:2], "fluents_a": list(fa), "fluents_b": list(fa), "reverse_b": rev, "empty_keys": rev})
     tasks.append({"atoms": M_ATOMS, "fluents_a": [], "fluents_b": [], "reverse_b": False, "empty_keys": False, "route_b": "trajectory"})
     # fluents over an object of a strict subtype of the declared parameter type, the second state built without a problem
     # (declared types) / with it (own types); equality must not depend on the annotation nor on the side of ==
